@@ -24,6 +24,9 @@
 //	VAL   ::= (t N)            the type Integer[N,N]     (a fresh object every time: equality goes through Equals)
 //	        | (s N)            the String value "N"      (a non-Type that implements Equality)
 //	        | (al xNAME N)     the alias type NAME = Integer[N,N]
+//	        | (o N)            implementation-only lines (`@histo`): an opaque Go value (a pointer to a struct that implements neither
+//	                           px.Type nor px.Equality); the same N is the very same object within a line, another N another object
+//	        | (nil)            implementation-only lines (`@histo`): an entry without a value (what a loader records for a miss)
 //	STEP  ::= (load L NAME)    px.Load(ctx_L, NAME)                 → found VAL | notfound
 //	        | (def L NAME VAL) loader_L.SetEntry(NAME, entry(VAL))  → ok | reported CODE | fault
 //	        | (add L xNAME N)  px.AddTypes(ctx_L, alias NAME=Integer[N,N]) → ok | reported CODE | fault
@@ -42,6 +45,11 @@
 //
 // Output: the step answers joined by " ; ", then " | " and the final own contents of every loader
 // (`i:{key=VAL key=- …}`, keys sorted, `-` = cached-miss placeholder).
+//
+// `@histo (tree …) (steps …)`: the same line language and the same direct predicate, evaluated on the implementation only
+// (the model's values are Types and Strings); it admits the two value shapes above.  Property text: "re-defining it with an
+// equal value is a no-op" — the very same object is an equal value even when it has no Equals method, another object without
+// one is a different value (rejected); an entry without a value binds nothing and never disturbs a binding.
 //
 // Direct predicate: a reference map written from the property text (refState below) is run beside the
 // implementation; after EVERY step the answer and the complete observable state (GetEntry / LoadEntry / HasEntry
@@ -212,6 +220,12 @@ func parseName(e sx.Sexp) nameT {
 	return nameT{ns: a[0].Atom, name: string(b), auth: auth}
 }
 
+// extValues: the line being parsed is an implementation-only `@histo` line (ops are executed one at a time)
+var extValues bool
+
+// opaque: a Go value that is neither a px.Type nor a px.Equality
+type opaque struct{ n int64 }
+
 func parseVal(e sx.Sexp) valT {
 	a := e.Args()
 	switch e.Tag() {
@@ -220,6 +234,14 @@ func parseVal(e sx.Sexp) valT {
 		n, err := a[0].AsInt()
 		must(err == nil && n >= 0, "val int")
 		return valT{kind: e.Tag(), n: n}
+	case "o":
+		must(extValues && len(a) == 1, "val")
+		n, err := a[0].AsInt()
+		must(err == nil && n >= 0, "val int")
+		return valT{kind: "o", n: n}
+	case "nil":
+		must(extValues && len(a) == 0, "val")
+		return valT{kind: "nil"}
 	case "al":
 		must(len(a) == 2, "alias")
 		b, err := a[0].AsBytes()
@@ -237,6 +259,9 @@ func (v valT) String() string {
 	}
 	if v.kind == "al" {
 		return fmt.Sprintf("(al %s %d)", sx.Str(v.name), v.n)
+	}
+	if v.kind == "nil" {
+		return "(nil)"
 	}
 	return fmt.Sprintf("(%s %d)", v.kind, v.n)
 }
@@ -297,6 +322,8 @@ func canon(v interface{}) string {
 		if n, err := strconv.ParseInt(v.String(), 10, 64); err == nil {
 			return fmt.Sprintf("(s %d)", n)
 		}
+	case *opaque:
+		return fmt.Sprintf("(o %d)", v.n)
 	}
 	return fmt.Sprintf("(other %T)", v)
 }
@@ -486,15 +513,19 @@ func exec(c px.Context, op string, args []sx.Sexp) (res core.Result) {
 	if op == "tsnest" {
 		return execTsNest(c, args)
 	}
+	if op == "gofn" {
+		return execGoFn(c, args)
+	}
 	if op == "tn" {
 		return execTn(args)
 	}
 	if op == "lfor" {
 		return execLfor(args)
 	}
-	if op != "hist" {
+	if op != "hist" && op != "histo" {
 		return core.Result{Out: "bad-op", Pred: "n/a"}
 	}
+	extValues = op == "histo"
 	defer func() {
 		if e := recover(); e != nil {
 			if _, ok := e.(bad); ok {
@@ -714,6 +745,7 @@ func run(c px.Context, parent []int, forked []bool, ts []bool, steps []stepT, st
 	missed := map[string]bool{} // "L key": a lookup of key through L failed earlier
 	accepted, looked := false, false
 	var queue []stepT // the declared types not resolved yet
+	pool := map[int64]*opaque{} // the opaque values of this line: one object per number
 
 	for si, s := range steps {
 		l := w.loaders[s.l]
@@ -810,7 +842,18 @@ func run(c px.Context, parent []int, forked []bool, ts []bool, steps []stepT, st
 		case "def", "add":
 			var r string
 			if s.op == "def" {
-				r = safely(func() { l.SetEntry(s.name.tn(), px.NewLoaderEntry(s.val.build(), nil)) })
+				var nv interface{}
+				switch s.val.kind {
+				case "o":
+					if pool[s.val.n] == nil {
+						pool[s.val.n] = &opaque{s.val.n}
+					}
+					nv = pool[s.val.n]
+				case "nil":
+				default:
+					nv = s.val.build()
+				}
+				r = safely(func() { l.SetEntry(s.name.tn(), px.NewLoaderEntry(nv, nil)) })
 			} else {
 				r = safely(func() { px.AddTypes(ctx, s.val.build().(px.Type)) })
 			}
@@ -818,19 +861,24 @@ func run(c px.Context, parent []int, forked []bool, ts []bool, steps []stepT, st
 			if r == "" {
 				out = "ok"
 			}
-			want := ref.define(s.l, ref.key(s.name), s.val.String())
-			wantX := exact.define(s.l, exact.key(s.name), s.val.String())
+			want, wantX := "ok", "ok" // an entry without a value binds nothing and disturbs nothing
+			if s.val.kind != "nil" {
+				want = ref.define(s.l, ref.key(s.name), s.val.String())
+				wantX = exact.define(s.l, exact.key(s.name), s.val.String())
+			}
 			switch {
 			case out == "fault":
 				// classified below with the other faults
 			case want == "rejected" && out == "ok":
 				setFail(classOr("redefine-accepted", wantX == "ok"), fmt.Sprintf("%s: a different value for a bound name was accepted", at))
+			case s.val.kind == "nil" && out != "ok":
+				setFail("empty-entry-rejected", fmt.Sprintf("%s: an entry without a value answered %s", at, out))
 			case want == "ok" && out != "ok":
 				setFail(classOr("redefine-equal-rejected", wantX == "rejected"), fmt.Sprintf("%s: answered %s where the reference accepts (new binding or equal re-definition)", at, out))
 			case want == "rejected" && !strings.HasPrefix(out, "reported PCORE_ATTEMPT_TO_REDEFINE"):
 				setFail("redefine-accepted", fmt.Sprintf("%s: rejected with %s instead of a reported redefinition error", at, out))
 			}
-			if want == "ok" && out == "ok" {
+			if want == "ok" && out == "ok" && s.val.kind != "nil" {
 				accepted = true
 			}
 		case "addts":
@@ -1102,6 +1150,7 @@ func nm(ns, name, a string) string { return fmt.Sprintf("(n %s %s %s)", ns, sx.S
 func gen(g *core.G) {
 	genTsAdd(g)
 	genTsNest(g)
+	genGoFn(g)
 	// 1. exhaustive: all histories of length <= 3 (quick) / <= 4 (thorough) over a chain of three loaders,
 	//    the names {a, A, b} and the steps {load, def v1, def v2, has} × name + discover
 	var alphabet []string
@@ -1196,6 +1245,32 @@ func gen(g *core.G) {
 			}
 		}
 		rec3(nil)
+		// the type set's OWN name and the path My::My (IsParent / RelativeTo at their boundary: a name is not its own parent;
+		// My::My is the name My relative to the type set): every history of length <= 2 (quick) / <= 3 (thorough), 27 steps
+		var alphaOwn []string
+		for l := 0; l < 3; l++ {
+			for _, n := range []string{"My", "My::My", "My::Foo"} {
+				x := nm("type", n, "r")
+				alphaOwn = append(alphaOwn, fmt.Sprintf("(load %d %s)", l, x), fmt.Sprintf("(has %d %s)", l, x))
+				if l < 2 {
+					alphaOwn = append(alphaOwn, fmt.Sprintf("(def %d %s (t 7))", l, x))
+				}
+			}
+			alphaOwn = append(alphaOwn, fmt.Sprintf("(disc %d all)", l))
+		}
+		var rec4 func(prefix []string)
+		rec4 = func(prefix []string) {
+			if len(prefix) > 0 {
+				g.Emit("hist (tree (p -1) (p 0) (ts 1)) (steps " + strings.Join(prefix, " ") + ")")
+			}
+			if len(prefix) == maxLen-1 {
+				return
+			}
+			for _, a := range alphaOwn {
+				rec4(append(prefix, a))
+			}
+		}
+		rec4(nil)
 	}
 
 	genDep(g, maxLen)
@@ -1203,6 +1278,7 @@ func gen(g *core.G) {
 	genKey(g)
 	genLfor(g)
 	genStatic(g, maxLen)
+	genHisto(g, maxLen)
 
 	// 2. random histories (length 3..8, 9..16 or 40) over random trees of depth <= 3
 	r := g.Rng
@@ -1304,7 +1380,7 @@ func gen(g *core.G) {
 			local[0] = core.Pick(r, []string{nm("type", "Integer", "r"), nm("type", "integer", "r"), nm("type", "::INTEGER", "r")})
 		}
 		if tsLeaf {
-			local[0] = core.Pick(r, []string{nm("type", "My::Foo", "r"), nm("type", "my::FOO", "r"), nm("type", "Foo", "r"), nm("type", "My::Baz", "r"), nm("type", "My::My::Bar", "r"), nm("function", "My::Foo", "r")})
+			local[0] = core.Pick(r, []string{nm("type", "My::Foo", "r"), nm("type", "my::FOO", "r"), nm("type", "Foo", "r"), nm("type", "My::Baz", "r"), nm("type", "My::My::Bar", "r"), nm("function", "My::Foo", "r"), nm("type", "My", "r"), nm("type", "my::MY", "r")})
 			if k > 1 {
 				local[1] = core.Pick(r, []string{nm("type", "bar", "r"), nm("type", "My::Bar", "r"), nm("type", "foo", "o")})
 			}
